@@ -1,4 +1,5 @@
 import Secp.Proofs.GroupTies
+import Secp.Proofs.BytesTies
 import Secp.Proofs.HashToScalar
 /-!
 # C09 — HashToScalar is RFC 9380 hash_to_field over the scalar field
@@ -36,6 +37,11 @@ theorem expander_regenerated_empty (H : Bytes → Bytes) (hH : HashOK H) (msg : 
 theorem wide_reduction (input : Bytes) (hb : IsBytes input) (hl : input.length = 48) :
     sOk (Hand.Fn.hashToFieldElement input) ∧ sVal (Hand.Fn.hashToFieldElement input) = ((os2ip input : Nat) : ZMod N) :=
   fn_hashToField input hb hl
+
+/-- the wide reduction regenerated from `internal/scalar` on this run does not panic on 48-byte inputs and is the model's -/
+theorem wide_reduction_regenerated (out : L4) (input : Bytes) (hl : input.length = 48) :
+    GenScalarBytes.hashToFieldElement out input = some (Hand.Fn.hashToFieldElement input) :=
+  BytesTies.fn_hashToFieldElement out input hl
 
 /-- **C09** -/
 theorem hashToScalar_spec (H : Bytes → Bytes) (hH : HashOK H) (msg dst : Bytes) (hd : dst ≠ []) :
